@@ -700,6 +700,11 @@ func checkC10(w *World, r *Recorder) propInfo {
 	// container walks reject null entries and validate every element (C01-R3),
 	// so no component the getters do not report can be on the wire
 	importRules(w, r, checkC01, "C10-W12", func(o *Oblig) bool { return o.Rule == "C01-R3" })
+	// W13: the profile value emitted for a valid set is exactly the profile's
+	// identifier: validity of the stored profile string is equality with the
+	// canonical name (the GetProfile cells, C07-P4), and the encoder emits the
+	// stored string
+	importRules(w, r, checkC07, "C10-W13", func(o *Oblig) bool { return o.Rule == "C07-P4" })
 	r.Floor("C10-W1", 26)
 	r.Floor("C10-W3", 26)
 	r.Floor("C10-W4", 1)
@@ -751,6 +756,11 @@ func checkC09(w *World, r *Recorder) propInfo {
 	// emits (C07-P1). A dispatcher that also consults other members can pick
 	// one implementation for a token and another for its re-encoding.
 	importRules(w, r, checkC07, "C09-I9", func(o *Oblig) bool { return o.Rule == "C07-P1" })
+	// I10: a claims-set is valid only when its profile claim is exactly the
+	// canonical name (the GetProfile cells, C07-P4): a validity widened by
+	// folding, trimming or a different constant makes a "valid" set encode to
+	// bytes whose declared profile selects nothing, or something else
+	importRules(w, r, checkC07, "C09-I10", func(o *Oblig) bool { return o.Rule == "C07-P4" })
 	r.Floor("C09-I1", 1)
 	r.Floor("C09-I2", 2)
 	r.Floor("C09-I3", 26)
@@ -917,6 +927,11 @@ func checkC12(w *World, r *Recorder) propInfo {
 	// to find the profile member: it reads no other member, so it cannot reject
 	// (or treat differently) an object that the profile's own decoder accepts
 	c12DispatcherReadsOnlyProfileMembers(w, r, "C12-J9")
+	// J10: the JSON dispatcher matches the declared profile exactly, so a
+	// claims-set may be valid only when its profile claim is exactly the
+	// canonical name (the GetProfile cells, C07-P4) — otherwise the library's
+	// own JSON for a valid set does not dispatch back
+	importRules(w, r, checkC07, "C12-J10", func(o *Oblig) bool { return o.Rule == "C07-P4" })
 	r.Floor("C12-J1", 26)
 	r.Floor("C12-J2", 26)
 	r.Floor("C12-J3", 8)
